@@ -740,7 +740,7 @@ class GeoBox(GeoBoxBase):
         nx, ny = self._shape.xy
         x0, y0, x1, y1 = map(int, bounding_box_in_pixel_domain(other, self, tol))
         x0, y0 = max(0, x0), max(0, y0)
-        x1, y1 = min(x1, nx), min(y1, ny)
+        x1, y1 = max(x0, min(x1, nx)), max(y0, min(y1, ny))
         return numpy.s_[y0:y1, x0:x1]
 
     @property
